@@ -126,7 +126,7 @@ Proof.
       destruct (lookup k kv) as [x|] eqn:Lk.
       - specialize (IH x Hx). destruct (encode sub x) as [bx|e] eqn:E.
         + destruct (encode_fields encode kv r) eqn:Er; [nc|exact Hrest].
-        + destruct e; try exact IH. exfalso. apply (IH EKey eq_refl). left; reflexivity.
+        + destruct e; try exact IH; exfalso; apply (IH EKey eq_refl); left; reflexivity.
       - destruct (p_default m) as [d|] eqn:Dm.
         + apply Hdflt; auto.
         + (* absent, no default: then it is required, and validation saw it missing *)
